@@ -272,6 +272,11 @@ func errClass(e string) string {
 
 // inventory counts what the exported state contains (evidence and non-triviality).
 func (h *hist) inventory(v *view, when string) {
+	for a := range v.CodeHash {
+		if a[0] == 0xff || a[0] == 0x00 {
+			h.run.Count("state_contracts_at_edge_addresses", 1)
+		}
+	}
 	run := h.run
 	variant := fmt.Sprintf("native=%v,staking=%v,finite=%v", h.native, h.staking, h.finiteGas)
 	nt := func(kind string) { run.Nontrivial(kind + "|" + variant) }
